@@ -76,4 +76,11 @@ response unanswered: `c01Lost 0` -/
 example : runMon exScn {} ((Op.connect :: exOps).zip (run exScn seededM11 {} (Op.connect :: exOps))) = some (.c01Lost 0 .plain true) := by
   decide
 
+/-- **bare_cr_is_not_a_line_end** (a limit, not a finding): WHATWG text/event-stream also allows a bare CR as line
+end; `bufio.Reader.ReadBytes('\n')` splits at LF only, so a stream without any LF never yields a line, whatever it
+contains: the client waits (Connect does not return). Outside the quantifier here as in engine `wire`
+(`Wire/Sse.lean`: "a bare CR as a line end is outside"); no SDK or common server writes such streams. -/
+theorem bare_cr_is_not_a_line_end (bs : Bytes) (h : LF ∉ bs) : scanFed bs = ([], false) := by
+  simp [scanFed, splitLines_noLF bs h]
+
 end SseClient
